@@ -1,3 +1,4 @@
+import Agd.Tie.TrC10
 import Agd.Lemmas.Access
 import Agd.Tie.C10
 /-!
@@ -20,7 +21,7 @@ theorem blocked_iff (g : Global) (r : Req) :
     blocked g r = true ↔
       matchNets g.nets r.addr = true ∨
       engBlocked (g.eng (normQueryDomain r.qname) r.qtype) = true ∨
-      ∃ p, r.dev = .ok (some p) ∧
+      ∃ p a, r.dev = .ok (some p) a ∧
         (((matchASNs p.allowedASN r.asn = false ∧ matchNets p.allowedNets r.addr = false) ∧
             (matchASNs p.blockedASN r.asn = true ∨ matchNets p.blockedNets r.addr = true)) ∨
           engBlocked (p.eng (normQueryDomain r.qname) r.qtype) = true) := by
@@ -30,7 +31,7 @@ theorem blocked_iff (g : Global) (r : Req) :
   · by_cases h2 : engBlocked (g.eng (normQueryDomain r.qname) r.qtype) = true
     · simp [h1, h2]
     · cases hd : r.dev with
-      | ok acc =>
+      | ok acc da =>
         cases acc with
         | none => simp [h1, h2, DevRes.profAcc]
         | some p =>
@@ -51,7 +52,7 @@ example :
     blocked { nets := [], eng := fun _ _ => ⟨false, none⟩ }
       { addr := ⟨true, 0xC0000207⟩, port := 4000, qname := "ok.test.", qtype := 1, asn := some 7, ecsBad := false,
         dev := .ok (some { allowedNets := [⟨true, 0xC0000201, 32⟩], blockedNets := [⟨true, 0xC0000200, 24⟩],
-                           allowedASN := [1], blockedASN := [42], eng := fun _ _ => ⟨false, none⟩ }) } = true := by
+                           allowedASN := [1], blockedASN := [42], eng := fun _ _ => ⟨false, none⟩ }) {} } = true := by
   decide
 
 /-- **prefix_contains_iff.** Subnet membership in the model is equality of the leading `bits` bits. -/
@@ -96,7 +97,8 @@ example :
     Rejected { nets := [], eng := fun _ _ => ⟨false, none⟩ }
       { addr := ⟨true, 0xC0000207⟩, port := 4000, qname := "ok.test.", qtype := 1, asn := some 42, ecsBad := false,
         dev := .ok (some { allowedNets := [⟨true, 0xC0000201, 32⟩], blockedNets := [],
-                           allowedASN := [1], blockedASN := [42], eng := fun _ _ => ⟨false, none⟩ }) } := by
+                           allowedASN := [1], blockedASN := [42], eng := fun _ _ => ⟨false, none⟩ })
+                  { profFiltering := false, devFiltering := false } } := by
   rw [← blocked_iff_rejected]; decide
 
 /-! ## Blocked means silent and traceless -/
@@ -205,7 +207,7 @@ theorem allow_over_block (p : ProfAcc) (a : Addr) (l : Option Nat)
   rcases h with h | h <;> simp [h]
 
 /-- … and such a request is processed normally unless a global rule or a name rule rejects it. -/
-theorem allow_over_block_proceeds (g : Global) (r : Req) (p : ProfAcc) (hd : r.dev = .ok (some p))
+theorem allow_over_block_proceeds (g : Global) (r : Req) (p : ProfAcc) (da : DevAttrs) (hd : r.dev = .ok (some p) da)
     (h : matchNets p.allowedNets r.addr = true ∨ matchASNs p.allowedASN r.asn = true)
     (hg1 : matchNets g.nets r.addr = false)
     (hg2 : engBlocked (g.eng (normQueryDomain r.qname) r.qtype) = false)
@@ -238,7 +240,56 @@ example :
     accessReason { nets := [⟨true, 0xC0000200, 24⟩], eng := fun _ _ => ⟨false, none⟩ }
       { addr := ⟨true, 0xC0000201⟩, port := 4000, qname := "ok.test.", qtype := 1, asn := some 1, ecsBad := false,
         dev := .ok (some { allowedNets := [⟨true, 0xC0000201, 32⟩], blockedNets := [], allowedASN := [1],
-                           blockedASN := [], eng := fun _ _ => ⟨false, none⟩ }) } = .globalIP := by decide
+                           blockedASN := [], eng := fun _ _ => ⟨false, none⟩ }) {} } = .globalIP := by decide
+
+/-! ## Nothing else in the profile or the device matters -/
+
+/-- **device_attributes_irrelevant.** The access decision and everything this stage does with a request
+are the same whatever the rest of the profile and device records says: filtering switched off for the
+profile or the device, query log or IP log off, a deleted profile, automatic devices, the blocking
+mode, the filter configuration, a linked or dedicated address, device authentication.  A profile's
+access settings apply (and an unrejected request is passed on) for every value of these switches —
+"for all per-profile access configurations" includes the profiles whose filtering is off. -/
+theorem device_attributes_irrelevant (g : Global) (r : Req) (acc : Option ProfAcc) (a b : DevAttrs) :
+    accessReason g { r with dev := .ok acc a } = accessReason g { r with dev := .ok acc b } ∧
+    blocked g { r with dev := .ok acc a } = blocked g { r with dev := .ok acc b } ∧
+    wrap g { r with dev := .ok acc a } = wrap g { r with dev := .ok acc b } ∧
+    wire g { r with dev := .ok acc a } = wire g { r with dev := .ok acc b } := by
+  have h : accessReason g { r with dev := .ok acc a } = accessReason g { r with dev := .ok acc b } := by
+    cases acc <;> rfl
+  have hw : wrap g { r with dev := .ok acc a } = wrap g { r with dev := .ok acc b } := by
+    unfold wrap
+    rw [h]
+    rfl
+  exact ⟨h, by unfold blocked; rw [h], hw, by unfold wire; rw [hw]⟩
+
+/-- **profile_block_whatever_switches.** A request that its profile's access settings reject is
+rejected — silently and without trace (`blocked_no_trace`) — whatever the switches of the profile and
+the device are. -/
+theorem profile_block_whatever_switches (g : Global) (r : Req) (p : ProfAcc) (a : DevAttrs)
+    (hb : p.isBlocked r.qname r.qtype r.addr r.asn = true) :
+    blocked g { r with dev := .ok (some p) a } = true ∧ wire g { r with dev := .ok (some p) a } = [] := by
+  have h : blocked g { r with dev := .ok (some p) a } = true := by
+    unfold blocked accessReason
+    simp only [DevRes.profAcc, hb]
+    split
+    · rfl
+    · split <;> rfl
+  exact ⟨h, (blocked_no_trace g _ h).2.2.2⟩
+
+/-- Non-vacuity: profile and device filtering off, query log off, profile deleted; the client is in a
+blocked /24 of the profile: rejected, nothing on the wire; the same client of a profile without that
+subnet, same switches, is served. -/
+example :
+    let g : Global := { nets := [], eng := fun _ _ => ⟨false, none⟩ }
+    let a : DevAttrs := { profFiltering := false, devFiltering := false, queryLog := false, deleted := true }
+    let p : ProfAcc := { allowedNets := [], blockedNets := [⟨true, 0xC0000200, 24⟩], allowedASN := [], blockedASN := [],
+                         eng := fun _ _ => ⟨false, none⟩ }
+    let r : Req := { addr := ⟨true, 0xC0000207⟩, port := 4000, qname := "ok.test.", qtype := 1, asn := some 7, ecsBad := false,
+                     dev := .ok (some p) a }
+    p.isBlocked r.qname r.qtype r.addr r.asn = true ∧ wire g r = [] ∧
+      wire g { r with dev := .ok (some { p with blockedNets := [] }) a } = [.next] := by
+  decide
 
 /-! ## Everything else is processed normally -/
 
@@ -570,6 +621,8 @@ example : serverWire .doq {} exBlockedG exBlockedR true = [.srvServfail] ∧
 #print axioms allow_over_block_proceeds
 #print axioms global_before_profile
 #print axioms unblocked_proceeds
+#print axioms device_attributes_irrelevant
+#print axioms profile_block_whatever_switches
 #print axioms rule_engine_blocks_iff
 #print axioms pre_fix_bad_ecs_counterexample
 #print axioms pre_fix_root_query_counterexample
@@ -585,3 +638,12 @@ example : serverWire .doq {} exBlockedG exBlockedR true = [.srvServfail] ∧
 #print axioms doq_no_response_counterexample
 
 end Agd.Access
+#print axioms Agd.Tie.TrC10.translation_complete
+#print axioms Agd.Tie.TrC10.matchASNs_spec
+#print axioms Agd.Tie.TrC10.allowed_over_blocked
+#print axioms Agd.Tie.TrC10.profile_blocked_iff
+#print axioms Agd.Tie.TrC10.access_blocked_iff
+#print axioms Agd.Tie.TrC10.access_order
+#print axioms Agd.Tie.TrC10.blocked_reaches_nothing
+#print axioms Agd.Tie.TrC10.access_checked_first
+#print axioms Agd.Tie.TrC10.unblocked_is_processed
